@@ -108,8 +108,8 @@ META["C12"] = dict(cat="model_checking", design="6 C12",
                    text="MC_Bigint checks the limb-level algorithms (carry loops, resize-before-add, partial products, bit/limb "
                         "shifts, stepped powers) against arithmetic on naturals for every pair of operand vectors in a small scope, "
                         "including failure exactly on capacity overflow; operations on real 64-bit-limb operands up to and beyond "
-                        "the 62-limb capacity are adjudicated by TLC at the value level and compared with the limb-level model, in "
-                        "stack and heap builds.",
+                        "the 62-limb capacity (function and operator forms) are adjudicated by TLC at the value level and compared with "
+                        "the limb-level model, in stack and heap builds.",
                    note="Operands restricted to the range the property names (non-zero normalised factors; normalised input for "
                         "hi64 / compare). " + _TB,
                    tech="TLC exhaustive small-scope model checking of BigintOps.tla + trace validation of operation records")
@@ -135,8 +135,9 @@ META["C16"] = dict(cat="model_checking", design="6 C16",
                    text="MC_Calls explores every interleaving of 3 threads x 2 inputs x every initial stack content of the call model "
                         "(uninitialised per-frame scratch vector, write-before-length, no shared state) and checks that the two failure "
                         "designs named by the property are caught; the real parse_float is called with 7 iterator shapes after stack "
-                        "poisoning and from 8 concurrent threads, and the CF_Calls trace specification accepts a Return only if it "
-                        "carries the sequential baseline for that input.",
+                        "poisoning, from 8 concurrent threads, and in histories of related inputs run back to back on one thread (19-digit "
+                        "prefix / just below / exact tie / just above a midpoint, exponent one off, other float format); the CF_Calls "
+                        "trace specification accepts a Return only if it carries what a fresh process returns for that input alone.",
                    note="Verdicts compare bits only (no timing). The interleavings of real threads are whatever the scheduler produced. " + _TB,
                    tech="TLC model checking of Calls.tla (all interleavings) + trace validation of per-thread call/return events")
 
